@@ -57,6 +57,9 @@ func c05Artifacts(step int) (map[string]string, map[string]string) {
 func applyDiff(a map[string]intoto.HashObj, kind string) {
 	var first string
 	for k := range a {
+		if _, has := a[k]["sha256"]; !has {
+			continue // the digest-less artifact is not the one that gets altered
+		}
 		if first == "" || k < first {
 			first = k
 		}
@@ -175,6 +178,13 @@ func runC05(c *core.Ctx) {
 				// a first step without any artifact rules (legal): the rules of the following steps still count
 				mr, pr = nil, nil
 			}
+			if ci%3 == 0 && pr != nil {
+				// an artifact that every functionary recorded without any digest (empty hash object)
+				pr = append([][]string{{"ALLOW", "meta/VERSION"}}, pr...)
+				if s == 0 {
+					mr = append([][]string{{"ALLOW", "meta/IN"}}, mr...)
+				}
+			}
 			if ci%3 == 2 && mr != nil {
 				// MATCH rules with a source prefix under which nothing lives: they consume nothing and
 				// must leave the agreed artifact sets (and with them the summary link) alone
@@ -216,10 +226,17 @@ func runC05(c *core.Ctx) {
 			continue
 		}
 		var wantMats, wantProds map[string]intoto.HashObj
+		cosigned := false
 		for s := 0; s < k.Steps; s++ {
 			m, p := c05Artifacts(s)
 			for li := 0; li < k.Links; li++ {
 				mats, prods := gen.Artifacts(m), gen.Artifacts(p)
+				if ci%3 == 0 {
+					prods["meta/VERSION"] = intoto.HashObj{}
+					if s == 0 {
+						mats["meta/IN"] = intoto.HashObj{}
+					}
+				}
 				if s == k.BadStep-1 {
 					prods["evil"] = intoto.HashObj{"sha256": "66"}
 				}
@@ -236,11 +253,35 @@ func runC05(c *core.Ctx) {
 				}
 				gen.WriteLink(linkDir, gen.NewLink(fmt.Sprintf("step%d", s), mats, prods), signKey, k.DSSE)
 			}
+			if s == k.DiffStep && certFn == nil && ci%5 == 1 && k.Links >= 2 {
+				// the link file that sorts last is co-signed by a functionary whose own link disagrees
+				// with it (a second signature on a file does not make the file that signer's evidence)
+				last, owner := "", 0
+				for li := 0; li < k.Links; li++ {
+					if n := gen.LinkName(fmt.Sprintf("step%d", s), fn[li].Pub.KeyID); n > last {
+						last, owner = n, li
+					}
+				}
+				co := k.Links - 1
+				if owner == co {
+					co = 0
+				}
+				if md, lerr := intoto.LoadMetadata(filepath.Join(linkDir, last)); lerr == nil && md.Sign(fn[co].Priv) == nil {
+					md.Dump(filepath.Join(linkDir, last))
+					cosigned = true
+				}
+			}
 			if s == 0 {
 				wantMats = gen.Artifacts(m)
+				if ci%3 == 0 {
+					wantMats["meta/IN"] = intoto.HashObj{}
+				}
 			}
 			if s == k.Steps-1 {
 				wantProds = gen.Artifacts(p)
+				if ci%3 == 0 {
+					wantProds["meta/VERSION"] = intoto.HashObj{}
+				}
 				if s == k.BadStep-1 {
 					wantProds["evil"] = intoto.HashObj{"sha256": "66"}
 				}
@@ -262,6 +303,9 @@ func runC05(c *core.Ctx) {
 		detail := map[string]any{"case": k.String()}
 		if inspLike != "" {
 			detail["inspection_named_like"] = inspLike
+		}
+		if cosigned {
+			detail["co_signed"] = "the link file that sorts last carries a second signature by a functionary whose own link disagrees with it"
 		}
 		if certFn != nil {
 			detail["differing_link_signed_by"] = "functionary authorized through a certificate constraint"
@@ -428,7 +472,7 @@ func init() {
 	core.Register(&core.Property{
 		ID:    "C05",
 		Level: "exploration",
-		Rule: "chains of 1-4 steps (step i consumes the product of step i-1), thresholds 1-3, threshold..3 validly signed authorized links per step; a single difference {added path, dropped path, one digest nibble, renamed algorithm, added algorithm, the same path spelled ./path, nothing reported at all, a digest that is not hexadecimal} in the materials or products of one counted link at every step position, in a quarter of the legacy cases reported by a functionary who is authorized through a certificate constraint while the others are listed by key; all counted links of one step (every position) agreeing on a product that step's rules forbid, with and without a rule-less step in front of it (rejected unless the agreeing step itself has no rules); uncounted links (unsigned / unauthorized / tampered) with arbitrary other artifacts added to otherwise identical directories (metamorphic pairs; the product rules REQUIRE f_i / DISALLOW evil would flip the verdict if they were evaluated on the uncounted link); 2 wrappers x 2 entry points; a third of the chains carry MATCH ... IN vendor rules on the first and last step that consume nothing (the agreed sets and the summary must not change); a fifth of the agreeing chains carry an inspection named like the first or the last step; every case verified 4 times (the reference link is picked from a map); the summary link is compared with (requested name, agreed materials of the first step, agreed products of the last step); ReduceStepsMetadata called directly with the difference at each of 3 positions x 6 repetitions. " +
+		Rule: "chains of 1-4 steps (step i consumes the product of step i-1), thresholds 1-3, threshold..3 validly signed authorized links per step; a single difference {added path, dropped path, one digest nibble, renamed algorithm, added algorithm, the same path spelled ./path, nothing reported at all, a digest that is not hexadecimal} in the materials or products of one counted link at every step position, in a quarter of the legacy cases reported by a functionary who is authorized through a certificate constraint while the others are listed by key, in a fifth with the last-sorting link file co-signed by a functionary whose own link disagrees; all counted links of one step (every position) agreeing on a product that step's rules forbid, with and without a rule-less step in front of it (rejected unless the agreeing step itself has no rules); uncounted links (unsigned / unauthorized / tampered) with arbitrary other artifacts added to otherwise identical directories (metamorphic pairs; the product rules REQUIRE f_i / DISALLOW evil would flip the verdict if they were evaluated on the uncounted link); 2 wrappers x 2 entry points; a third of the chains carry MATCH ... IN vendor rules on the first and last step that consume nothing (the agreed sets and the summary must not change); a third of the chains report one more product (and first-step material) without any digest - an empty hash object - which belongs to the agreed sets and to the summary like every other artifact; a fifth of the agreeing chains carry an inspection named like the first or the last step; every case verified 4 times (the reference link is picked from a map); the summary link is compared with (requested name, agreed materials of the first step, agreed products of the last step); ReduceStepsMetadata called directly with the difference at each of 3 positions x 6 repetitions. " +
 			"non-trivial = >=2 counted links or an uncounted link with other artifacts; distinct = the case tuple",
 		Assumptions: []string{"every validly signed authorized link counts, also beyond the threshold"},
 		Workers:     func(string) int { return 16 },
